@@ -125,8 +125,17 @@ def decision_list(I, pr, n: Node):
     out = [(pr.formula(sc.args[1]), sc.args[2]) for sc in reversed(chain)]
     T = ("const", True)
     if is_ext_call(base, "numpy.where") and len(base.args) == 4:
-        out.append((pr.formula(base.args[1]), base.args[2]))
-        out.append((T, base.args[3]))
+        # where(c1, v1, where(c2, v2, ...)) (also what np.select becomes): one entry per level, first match wins
+        guard = 0
+        while is_ext_call(base, "numpy.where") and len(base.args) == 4 and guard < 64:
+            guard += 1
+            out.append((pr.formula(base.args[1]), base.args[2]))
+            base = base.args[3]
+        if base.op == "Scatter" or is_ext_call(base, "numpy.full_like", "numpy.full", "numpy.zeros_like", "numpy.zeros",
+                                               "numpy.ones_like", "numpy.ones", "numpy.empty_like", "numpy.empty"):
+            out.extend(decision_list(I, pr, base))
+        else:
+            out.append((T, base))
     elif is_ext_call(base, "numpy.full_like", "numpy.full") and len(base.args) >= 3:
         out.append((T, base.args[2]))
     elif is_ext_call(base, "numpy.zeros_like", "numpy.zeros"):
